@@ -241,9 +241,10 @@ def check_calls(w, calls, C0, *, exact=True):
     ends = {}
     for c in calls:
         ends.setdefault(c.key(), c.end)
+    user_masked = {n for n, d in w["inputs"].items() if d.get("value") == "masked-view"}  # masked entries the caller passed himself
     for c in calls:
         for _p, a in c.args:
-            if contains_masked(a):
+            if contains_masked(a) and not user_masked:  # (with user-supplied masked entries the token proves nothing)
                 bad.append(("masked-argument", {"call": repr(c)}))
                 break
             for t in subterms(a):
